@@ -164,3 +164,90 @@ func c16Association(c *eng.Ctx) {
 		}
 	}
 }
+
+// c16CRLIdentity (C16.6): an issuer set keeps its CRL — and with it its CRL
+// number sequence — as long as ANY member already has one: the members whose
+// existing CRL id is consulted are the same members that are pointed at the
+// CRL afterwards. Consulting only the representative makes a freshly joined
+// representative start a new CRL at number 1 (seed C16-b).
+func c16CRLIdentity(c *eng.Ctx) {
+	f := c.Fn("pki.buildAnyCRLsWithCerts")
+	if f == nil {
+		return
+	}
+	c.Clause("R5", "C16.6")
+	bc := eng.Calls(f, `^pki\.buildCRL$`)
+	if !c.Floor(f, "buildCRL call", len(bc), 1) {
+		return
+	}
+	// slice base of an element expression xs[i]
+	elemBase := func(v ssa.Value) ssa.Value {
+		if ld, ok := v.(*ssa.UnOp); ok {
+			if ia, ok := ld.X.(*ssa.IndexAddr); ok {
+				return ia.X
+			}
+		}
+		if ix, ok := v.(*ssa.Index); ok {
+			return ix.X
+		}
+		return nil
+	}
+	// members pointed at the CRL: IssuerIDCRLMap[member] = id
+	var assigned []ssa.Value
+	for _, in := range eng.Instrs(f, func(in ssa.Instruction) bool { _, ok := in.(*ssa.MapUpdate); return ok }) {
+		mu := in.(*ssa.MapUpdate)
+		if strings.HasSuffix(eng.Expr(mu.Map), ".IssuerIDCRLMap") {
+			if b := elemBase(mu.Key); b != nil {
+				assigned = append(assigned, b)
+			}
+		}
+	}
+	if !c.Floor(f, "members pointed at the set's CRL", len(assigned), 1) {
+		return
+	}
+	// lookups of existing ids that reach the id handed to buildCRL
+	idArg := bc[0].Common().Args[5]
+	n := 0
+	seen := map[ssa.Value]bool{}
+	var walk func(v ssa.Value, d int)
+	walk = func(v ssa.Value, d int) {
+		if v == nil || seen[v] || d > 10 {
+			return
+		}
+		seen[v] = true
+		switch x := v.(type) {
+		case *ssa.Phi:
+			for _, e := range x.Edges {
+				walk(e, d+1)
+			}
+		case *ssa.Extract:
+			walk(x.Tuple, d+1)
+		case *ssa.Lookup:
+			if !strings.HasSuffix(eng.Expr(x.X), ".IssuerIDCRLMap") {
+				return
+			}
+			n++
+			site := "existing CRL id inherited from any member of the issuer set"
+			b := elemBase(x.Index)
+			ok := false
+			for _, a := range assigned {
+				if b != nil && a == b {
+					ok = true
+				}
+			}
+			if ok {
+				c.OK(f, site, x.Pos(), "IssuerIDCRLMap["+eng.Expr(x.Index)+"] for every member of the set")
+			} else {
+				c.Violation(f, site, x.Pos(), "the existing CRL id is looked up for "+eng.Expr(x.Index)+" only, not for each member of the set that is pointed at the CRL afterwards: a member that joined (e.g. a re-issued root chosen as representative) starts a new CRL and the CRL number restarts at 1", nil)
+			}
+		}
+	}
+	walk(idArg, 0)
+	c.Floor(f, "lookups of an existing CRL id", n, 1)
+	// a fresh id (and a counter starting at 1) only when none was found
+	c.Clause("R2", "C16.6")
+	gen := instrsOf(eng.Calls(f, `^pki\.genCRLId$`))
+	if c.Floor(f, "genCRLId", len(gen), 1) {
+		c.Cut(f, "fresh CRL id for the set", gen, eng.G(f, `^\(?len\(φcrlIdentifier\{.*\}\)\)? == 0$`, true), nil)
+	}
+}
